@@ -51,9 +51,16 @@ def scalar_case(c):
     return None
 
 
+NARROW = {"int": lambda k: str(k + 1), "float": lambda k: str(k + 1), "complex": lambda k: str(k + 1) if k % 2 else "%d.5" % (k + 1)}   # literals narrower than the declared type
+PYN = {"int": lambda k: k + 1, "float": lambda k: float(k + 1), "complex": lambda k: complex(k + 1) if k % 2 else complex(k + 1.5)}
+
+
 def array_text(t, r, c, ps, shape, neg=False):
     rows = []
     for i in range(r):
+        if neg == "narrow":
+            rows.append(", ".join(("{u%d}" % (i * c + j)) if (i * c + j) in ps else NARROW[t](i * c + j) for j in range(c)))
+            continue
         rows.append(", ".join(("{u%d}" % (i * c + j)) if (i * c + j) in ps else (NEG if (neg and (i * c + j) % 2) else VALS)[t](i * c + j) for j in range(c)))
     return "%s array A%s =\n" % (t, "" if shape is None else "[%s]" % ", ".join(map(str, shape))) + "".join("    " + x + "\n" for x in rows)
 
@@ -85,8 +92,8 @@ def array_case(c):
                     if not (isinstance(got, sym.Expr) and got == sym.Symbol("u%d" % k)):
                         return ("C05/array-layout" + ("-2+params" if len(ps) > 1 else "-1param"), "%s[%d,%d] is %r, written {u%d}; array %r" % (what, i, j, got, k, M.tolist()))
                 else:
-                    want = PYV[t](k) if not (neg and k % 2) else -PYV[t](k)
-                    if not ps and observe.kind(got) != KIND[t]:
+                    want = PYN[t](k) if neg == "narrow" else (PYV[t](k) if not (neg and k % 2) else -PYV[t](k))
+                    if observe.kind(got) != KIND[t] and not isinstance(got, sym.Expr):
                         return ("C05/array-element-kind", "%s[%d,%d] is %r (%s), declared %s" % (what, i, j, got, observe.kind(got), t))
                     if isinstance(got, sym.Expr) or not observe.veq(complex(got), complex(want), 0):
                         return ("C05/array-layout" + ("-2+params" if len(ps) > 1 else ("-1param" if ps else "")), "%s[%d,%d] is %r, written %r; array %r" % (what, i, j, got, want, M.tolist()))
@@ -183,6 +190,8 @@ def build(ctx):
                     cases.append(("array", (t, r, c, ps, shape, False)))
                 if not ps:
                     cases.append(("array", (t, r, c, ps, None, True)))
+                if len(ps) <= 2 and n <= 6:
+                    cases.append(("array", (t, r, c, ps, None, "narrow")))
             for k in range(n):
                 for form in ("lit", "expr", "grp"):
                     cases.append(("index", (t, r, c, k, form)))
